@@ -178,6 +178,9 @@ structure Sub where
   fail : Nat
   seenAttr : Nat
   seenEv : Nat
+  /-- `resumed_at`: the instant a subscription resumed from the persisted records was re-added;
+  `Instant::MAX` for a subscription accepted in this boot -/
+  resumedAt : Nat := IMAX
 deriving Repr, DecidableEq, Inhabited
 
 /-- `Instant::checked_add(Duration)` -/
@@ -185,7 +188,8 @@ def checkedAdd (t d : Nat) : Option Nat := if t + d ≤ IMAX then some (t + d) e
 
 /-- `is_expired(now)` -/
 def Sub.isExpired (hz : Nat) (s : Sub) (now : Nat) : Bool :=
-  match checkedAdd s.reportedAt (s.maxInt * hz) with
+  let since := if s.reportedAt = IMAX then s.resumedAt else s.reportedAt
+  match checkedAdd since (s.maxInt * hz) with
   | some e => decide (e ≤ now)
   | none => false
 
@@ -233,7 +237,19 @@ structure Ctx where
   nextFail : Nat
 deriving Repr, DecidableEq, Inhabited
 
-/-- `SubscriptionsInner<N>` + the live report contexts + the ghost log -/
+/-- `PersistedSubscription` (the raw subscribe request it also carries is ignored by the table) -/
+structure Rec where
+  fab : Nat
+  peer : Nat
+  minInt : Nat
+  maxInt : Nat
+  /-- the id of the subscription (`None` in a record written before the id was persisted) -/
+  id : Option Nat := none
+deriving Repr, DecidableEq, Inhabited
+
+/-- `SubscriptionsInner<N>` + the live report contexts + the persisted records (`kv`, one per slot
+`PERSISTENT_SUBSCRIPTIONS_START + i`, they survive a restart) + ghosts: the log of recorded changes
+and the boot counter `epoch` (subscription ids are only meaningful within one boot) -/
 structure State where
   hz : Nat
   n : Nat
@@ -245,11 +261,13 @@ structure State where
   cancelled : Bool
   ctxs : List Ctx
   log : List (Nat × Entry)
+  kv : List Rec := []
+  epoch : Nat := 0
 deriving Repr, Inhabited
 
 def State.new (hz n : Nat) : State :=
   { hz := hz, n := n, nextSubId := 1, count := 0, subs := [], changed := Changed.new,
-    reporting := none, cancelled := false, ctxs := [], log := [] }
+    reporting := none, cancelled := false, ctxs := [], log := [], kv := [], epoch := 0 }
 
 /-- `notify_attr_changed` / `notify_cluster_changed` / `notify_endpoint_changed` /
 `notify_all_changed`: `p` carries the sentinels on the wildcard axes -/
@@ -285,8 +303,10 @@ def State.report (s : State) (now evwm : Nat) : State × Option Nat :=
       ({ s with subs := swapRemove s.subs i, reporting := some sub, ctxs := s.ctxs ++ [ctx] },
         some sub.id)
 
-/-- how a `ReportContext` ends: `set_keep()` then drop, `set_keep_retry()` then drop, or a plain drop -/
-inductive Fin | keep | retry | drop
+/-- how a `ReportContext` ends: `set_keep()` then drop, `set_keep_retry()` then drop, a plain drop, or
+`set_keep_unsent()` then drop (the report turned out empty and was not sent: none of the pending
+changes concerns what the subscription selects — which attributes it selects is outside the model) -/
+inductive Fin | keep | retry | drop | unsent
 deriving Repr, DecidableEq, Inhabited
 
 /-- `ReportContext::set_keep_retry` -/
@@ -297,6 +317,11 @@ def Ctx.setKeepRetry (hz : Nat) (c : Ctx) : Ctx :=
   { c with nextAttr := c.sub.seenAttr, nextEv := c.sub.seenEv, nextReportedAt := c.sub.reportedAt,
            nextFail := failc,
            nextRetryAt := match checkedAdd now (backoff * hz) with | some t => t | none => IMAX }
+
+/-- `ReportContext::set_keep_unsent`: the watermarks advance, the last-success instant and the retry
+state stay -/
+def Ctx.setKeepUnsent (c : Ctx) : Ctx :=
+  { c with nextReportedAt := c.sub.reportedAt, nextRetryAt := c.sub.retryAt, nextFail := c.sub.fail }
 
 /-- the field commits at the top of `Subscriptions::report_complete` -/
 def Ctx.commit (c : Ctx) : Sub :=
@@ -331,6 +356,7 @@ def State.fin (s : State) (id : Nat) (f : Fin) : State × Bool :=
     let rest := s.ctxs.eraseP (fun c => c.sub.id == id)
     let c' := match f with
       | .retry => c.setKeepRetry s.hz
+      | .unsent => c.setKeepUnsent
       | _ => c
     let keep := match f with
       | .drop => false
@@ -385,6 +411,48 @@ def State.nextReportAt (s : State) (evwm : Nat) : Nat :=
   | some m => m
   | none => IMAX
 
+/-! ## Persisted subscriptions (`persistent-subscriptions`) -/
+
+def Sub.toRec (x : Sub) : Rec :=
+  { fab := x.fab, peer := x.peer, minInt := x.minInt, maxInt := x.maxInt, id := some x.id }
+
+/-- `persist_all`: one record per subscription **of the table** (`state.subscriptions`, at most `N`),
+the keys past the table length are removed.  A subscription that is outside the table at that
+moment (being primed or reported on) is not written. -/
+def State.persist (s : State) : State := { s with kv := (s.subs.take s.n).map Sub.toRec }
+
+/-- the id a resumed subscription gets and the next id to assign after it: `add` draws
+`next_subscription_id`; then the id of the record is given back unless a subscription of the table
+holds it already, and `next_subscription_id` is kept above it -/
+def State.resumeId (s : State) (r : Rec) : Nat × Nat :=
+  match r.id with
+  | some j =>
+    if s.subs.any (fun x => x.id == j) then (s.nextSubId, s.nextSubId + 1)
+    else (j, max (s.nextSubId + 1) (j + 1))
+  | none => (s.nextSubId, s.nextSubId + 1)
+
+/-- one iteration of the loop of `load_persist`: `self.add(now, …)`, then
+`rctx.next_reported_at = Instant::MAX; sub.resumed_at = now;` the id of the record is restored,
+`rctx.set_keep()` and the drop of the context (`report_complete` with `keep`, the `reporting` slot is
+empty): the subscription enters the table not primed, with the watermarks `add` snapshots, the resume
+instant as its expiry base and the id its subscriber knows.  `None` from `add` (table full) drops the
+record. -/
+def State.resumeOne (s : State) (r : Rec) (now evwm : Nat) : State :=
+  if s.count ≥ s.n then s
+  else
+    let sub : Sub := { id := (s.resumeId r).1, fab := r.fab, peer := r.peer, minInt := r.minInt,
+                       maxInt := r.maxInt, reportedAt := IMAX, retryAt := 0, fail := 0,
+                       seenAttr := s.changed.watermark, seenEv := evwm, resumedAt := now }
+    { s with count := s.count + 1, nextSubId := (s.resumeId r).2, subs := s.subs ++ [sub] }
+
+/-- a restart of the device: a fresh `InteractionModelState` (empty table, change ids from 1, every
+report context is gone with its task) and `load_persist` over the records `0 .. N` of the same
+store.  The ghost log starts again (the resumed subscriptions are not primed: their next report
+carries everything), the ghost boot counter is incremented. -/
+def State.restart (s : State) (now evwm : Nat) : State :=
+  (s.kv.take s.n).foldl (fun st r => st.resumeOne r now evwm)
+    { State.new s.hz s.n with kv := s.kv, epoch := s.epoch + 1 }
+
 /-- the operations on the table (what the responder tasks, the reporter task and the application do
 to it between two await points) -/
 inductive Op
@@ -394,6 +462,8 @@ inductive Op
   | fin (id : Nat) (f : Fin)
   | remove (p : Sub → Bool)
   | purge
+  | persist
+  | restart (now evwm : Nat)
 
 def State.step (s : State) : Op → State
   | .change p => s.change p
@@ -402,6 +472,8 @@ def State.step (s : State) : Op → State
   | .fin id f => (s.fin id f).1
   | .remove p => (s.remove p).1
   | .purge => s.purge
+  | .persist => s.persist
+  | .restart now ev => s.restart now ev
 
 def State.run (s : State) : List Op → State
   | [] => s
